@@ -197,6 +197,54 @@ def _make_env(bp):
                 states=[s.name for s in bp.State if hasattr(Base, "action_" + s.name.lower())])
 
 
+SUBCLASS_KINDS = ("own-signature", "counting", "plain")
+_SUB = {}
+
+
+def parser_subclass(kind):
+    """Library use: tools subclass behave.parser.Parser.  -> factory(variant) building one object of
+    (own-signature) a subclass with its own constructor signature - one positional settings argument - that calls
+    super().__init__ with keywords; (counting) a signature-compatible subclass whose __init__ counts its calls (a
+    constructor runs once per object); (plain) a subclass overriding nothing."""
+    if not _SUB:
+        Base = install()["Base"]
+
+        class SettingsParser(Base):
+            def __init__(self, settings):
+                Base.__init__(self, language=settings.get("language"), variant=settings.get("variant"))
+                self.settings = settings
+
+        class CountingParser(Base):
+            def __init__(self, language=None, variant=None):
+                Base.__init__(self, language, variant)
+                self.init_calls = getattr(self, "init_calls", 0) + 1
+
+        class PlainParser(Base):
+            pass
+
+        _SUB["own-signature"] = lambda variant: SettingsParser({"variant": variant, "project": "x"})
+        _SUB["counting"] = lambda variant: CountingParser(variant=variant)
+        _SUB["plain"] = lambda variant: PlainParser(variant=variant)
+    return _SUB[kind]
+
+
+METHOD_OF_ENTRY = {"feature": "parse", "rule": "parse_rule", "scenario": "parse_scenario", "steps": "parse_steps"}
+
+
+def run_subclass(kind, entry, text):
+    """-> (outcome like run_text, constructor calls or None): the entry point method called on a subclass object"""
+    P = install()
+    obj = parser_subclass(kind)(entry)
+    try:
+        res = getattr(obj, METHOD_OF_ENTRY[entry])(text)
+        out = ("ok", type(res).__name__)
+    except P["ParserError"] as e:
+        out = ("PE", e.line, exc_site(e))
+    except Exception as e:
+        out = ("EXC", type(e).__name__, exc_site(e))
+    return out, getattr(obj, "init_calls", None), (res if out[0] == "ok" else None)
+
+
 def _bgsig(bg):
     if bg is None:
         return None
